@@ -18,7 +18,7 @@ CLAIMED = {
          "1..2 (3) arbitrary digits; flag arbitrary) and the real expandForks / resolveInputs / resolvePipelineOutputs (resolve, resolveRef, resolveSplit, "
          "resolveMerge, resolveDisabledExp, getParts, Path) must deliver exactly what the text says each call receives: dynamic map call over an array and over "
          "a typed map, unsplit arguments, merges, a map call nested in a mapped pipeline with producers finishing in any order, struct projection, literals "
-         "with references, a call disabled by an upstream flag, pipeline outputs. H_C01_disabledInMapped: a call disabled per element inside a mapped pipeline; H_C01_disabledSiblings: two sibling calls below three nested sub-pipelines, all five run-time flags symbolic; H_C01_constFromMapped: constants collected from a pipeline mapped over a run-time array of 0..2 (3) elements (dependency on the array's producer and one copy per element).",
+         "with references, a call disabled by an upstream flag, pipeline outputs. H_C01_disabledInMapped: a call disabled per element inside a mapped pipeline; H_C01_disabledSiblings: two sibling calls below three nested sub-pipelines, all five run-time flags symbolic; H_C01_constFromMapped: constants collected from a pipeline mapped over a run-time array of 0..2 (3) elements (dependency on the array's producer and one copy per element). H_C01_wholeCall: a whole call bound to a struct of narrower members (and an array of it, and as top-level output), int written as 3 or 3.0; constants or stage outputs handed through a mapped pipeline.",
          "Trusted: go/ssa, symgo, z3; the reference JSON decoder that replaces encoding/json for the value shapes the harness produces; Metadata.read "
          "replaced by the harness's choice of _outs. Outside: other programs, strings/floats/nested structs as values, more than two fork dimensions, "
          "top-level _outs writing.",
@@ -27,7 +27,7 @@ CLAIMED = {
          "runJob) from an arbitrary sentinel-file state: every combination of _errors/_assert/_complete/_disabled/_log/_jobinfo/_stage_defs on "
          "split, chunks, join and fork metadata (= every instant of every schedule) is symbolic under the phase invariant; a recording fake job "
          "manager is the observer. Asserted: chunk jobs only after split complete, join only after all chunks complete, a node submits only "
-         "when running and enters running only when producer, disabling source and every enclosing preflight are done. H_C02_preflightBindings: which bindings a preflight call may have (a reference inside a collection literal is a known finding).",
+         "when running and enters running only when producer, disabling source and every enclosing preflight are done. H_C02_preflightBindings: which bindings a preflight call may have (a reference inside a collection literal is a known finding). H_C01_constFromMapped: a consumer of values handed through a pipeline mapped over a run-time collection depends on the collection's producer.",
          "Trusted: go/ssa, symgo, z3; the OS-boundary and AST/JSON stubs listed in the evidence (each returns an arbitrary outcome within its contract); the assumed representation invariant PhaseInv; the hand-built graph (one fork per node, <=2 chunks, P{PRE,A,C,Q{R{B}}}) and the MRO text of the real-graph fixture (instantiated by the real compiler and runtime inside the engine). Dynamic fork expansion and static fork enumeration run on instantiated pipelines (H_C01_*). Outside: real processes and job-manager queues.", "DESIGN.md §4 (C02)"),
  "C03": ("Same harness family as C02, plus two consecutive steps with arbitrary job progress and an optional restart in between: no metadata is "
          "handed to execJob twice, a job is submitted only from its empty state and then carries _jobinfo, exactly the chunks _stage_defs lists are "
@@ -38,7 +38,7 @@ CLAIMED = {
          "vdrKillSome/vdrKill with os.RemoveAll recorded over a symbolic file cache (directory, file inside it, sibling; arbitrary "
          "keep-alive sets, sizes, live arguments). Asserted: full kill only for a completed, not failed fork whose bound consumers are all "
          "complete/disabled and with no top-level hold; only unheld paths (and nothing containing a held path) are removed; fileArgs/"
-         "filePostNodes stay consistent; non-volatile stages lose only chunk files of splitting stages; anyOverlap/pathIsInside string kernels. The keep-alive relation itself is built by the real compiler/runtime from MRO text (two consumers, a sub-pipeline, a pipeline output, a mapped producer with null siblings); getLogicalFileNames runs over a small arbitrary file-system model (symlinked parent, relative/absolute/self links).",
+         "filePostNodes stay consistent; non-volatile stages lose only chunk files of splitting stages; anyOverlap/pathIsInside string kernels. The keep-alive relation itself is built by the real compiler/runtime from MRO text (two consumers, a sub-pipeline, a pipeline output, a mapped producer with null siblings); getLogicalFileNames runs over a small arbitrary file-system model (symlinked parent, relative/absolute/self links). Projections through map<S>[][].",
          "Trusted: go/ssa, symgo, z3/cvc5, the stubs and fixture listed in the evidence. Outside: file-system shapes beyond the model, JSON-derived file "
          "lists, keep-alive relations of programs other than the fixture text (structs, arrays of files, mapped calls), the real goroutine schedule, the stage contract.",
          "DESIGN.md §4 (C04)"),
@@ -53,7 +53,7 @@ CLAIMED = {
          "The real checkedReset/restartLocal/restartQueuedLocal/uncheckedReset/removeAll run on them (process liveness, recorded pid and "
          "_jobinfo readability arbitrary): a job with recorded completion is never reset, exactly failed / queued / dead-process jobs are, and "
          "nothing of the old attempt stays cached; Pipestance.Reset + RestartLocalJobs (what mrp does on re-attach) leaves no chunk queued or running under a dead process; two scheduler steps with a restart in between never resubmit a job with recorded progress; "
-         "Lock refuses an existing _lock without side effects and a handled signal removes it. H_C06_restartMapped: Pipestance.Reset on a mapped stage with arbitrary per-fork states, chunk-granular and full stage reset.",
+         "Lock refuses an existing _lock without side effects and a handled signal removes it. H_C06_restartMapped: Pipestance.Reset on a mapped stage with arbitrary per-fork states, chunk-granular and full stage reset. H_C05_signalAtCompletion: the job monitor's (cmd/mrjob) real Complete / HandleSignal with a signal before, after or without completion; H_C05_postProcessResumed: post-processing resumed after a kill between rename and link (file-system model).",
          "Trusted: go/ssa, symgo, z3, the OS-boundary stubs listed in the evidence, the crash-consistency assumption. Outside: equality of final "
          "outputs with an uninterrupted run, RestoreForks end to end, VDR/post-processing interruption, the real signal machinery, SIGKILL windows.",
          "DESIGN.md §4 (C05)"),
@@ -66,7 +66,7 @@ CLAIMED = {
          "map<int>, map<float>, two structs (one a superset of the other) and an array of structs the program text `CONSUMER(x = PRODUCER.o)` is generated and compiled by "
          "the real compiler; the oracle is the documented conversion list (identity, int->float, string<->file type, equal array depth / typed map with assignable "
          "elements, struct->struct with all fields present). Accepted exactly when convertible; a rejection names file and line of the binding; for accepted pairs a "
-         "generated conforming SRC value (arbitrary leaves, undeclared struct fields) filtered to DST - the runtime's step at the stage boundary - validates against DST. 20 literals incl. integral floats bound to int, with the delivered JSON checked against the parameter type.",
+         "generated conforming SRC value (arbitrary leaves, undeclared struct fields) filtered to DST - the runtime's step at the stage boundary - validates against DST. 20 literals incl. integral floats bound to int, with the delivered JSON checked against the parameter type. H_C07_callOrder: producer / mapped call / consumer written in each of the 6 orders x 3 consumer parameter depths.",
          "Trusted: go/ssa, symgo, z3, the assignability oracle and the reference JSON decoder in the harness. Outside: every other program shape (projections, map-call "
          "dimensions, literals, untyped maps, missing/unknown parameters, split consistency), leaf decoding, routing (C01).",
          "DESIGN.md §4 (C07)"),
@@ -89,13 +89,13 @@ CLAIMED = {
  "C15": ("Partial, clause by clause: for modifiers, bindings/expressions, calls, stages and pipelines two instances with the same shape "
          "and independent symbolic leaves (names, values, kinds, flags, types, dims, out names) are compared by the real EquivalentTo/"
          "Equals/equal code; the solver shows the verdict equals a leaf-wise oracle written from the doc comments in both directions "
-         "(refused iff a semantic leaf differs; cosmetic leaves ignored).",
+         "(refused iff a semantic leaf differs; cosmetic leaves ignored). H_C15_callees (9 x 9 programs: aliased calls switched between stages), H_C15_structKinds, H_C15_reattachText (the real reattachToPipestance on a model disk: comments / formatting of the invocation accepted, a changed argument refused).",
          "Trusted: go/ssa, symgo, z3, the oracles. AST shapes restricted to what the compiler produces. Outside: floats, map/split/merge "
          "expressions, _invocation byte comparison, the pipestance lock.",
          "DESIGN.md §4 (C15)"),
  "C16": ("StringExp values of up to 3 (4) arbitrary bytes, two-key typed maps with arbitrary 1-2 byte keys under every Go map iteration "
          "order, booleans/null/empty collections and integers below 10^3 (10^4) are encoded by the real EncodeJSON/MarshalJSON; an "
-         "RFC 8259 string decoder in the harness is the oracle. The loop invocation JSON -> BuildCallAst/convertToExp/fixExpressionTypes -> Format -> parse -> BuildDataForAst -> invocation JSON runs on a stage compiled from text (string of up to 2 (3) arbitrary bytes, struct, typed/untyped maps, arrays, array of structs, booleans, null).",
+         "RFC 8259 string decoder in the harness is the oracle. The loop invocation JSON -> BuildCallAst/convertToExp/fixExpressionTypes -> Format -> parse -> BuildDataForAst -> invocation JSON runs on a stage compiled from text (string of up to 2 (3) arbitrary bytes, struct, typed/untyped maps, arrays, array of structs, booleans, null). Arguments of type map<ST>[], map<ST[]>[], map<ST>[][]; H_C16_floatRange: 16 float literals around 2^63, 1e21, 1e-6.",
          "Trusted: go/ssa, symgo, z3, the 60-line JSON string decoder. Outside: split arguments, floats and large integers in the loop, "
          "per-fork invocation files.",
          "DESIGN.md §4 (C16)"),
@@ -109,7 +109,7 @@ CLAIMED = {
          "(node, fork, chunk?, 10-hex uniquifier?, prefix, state) are symbolic; the real makeKeySafe/url.PathEscape, forkString, "
          "ForkIdString, encodeJournalName, parseRunFilename (regex run by a symbolic Pike VM over Go's own compiled program), "
          "find, getFork, Metadata.cache are executed and the solver shows the name is injective and parses back to exactly its "
-         "writer; counterexamples replay natively. Bounded. H_C11_resetJournal: the journal clean-up of a partial and of a full reset removes exactly the entries of the job / stage being reset.",
+         "writer; counterexamples replay natively. Bounded. H_C11_resetJournal: the journal clean-up of a partial and of a full reset removes exactly the entries of the job / stage being reset. H_C11_forkOfNotification, H_C11_lateFork (real graphs: journal name -> parseRunFilename -> getFork, forks resolved at run time and at different times), H_C11_separatorKeys (keys containing the level separator text, 3 x 0..1 (2) symbolic bytes).",
          "Trusted: go/ssa lowering, symgo, the regex VM and Replacer models (validated by native replay of witnesses), z3. "
          "Node.refreshState runs on a symbolic journal listing. Outside: indices >= 1000, nested fork ids in routing, file-name length limits.",
          "DESIGN.md §4 (C11)"),
@@ -117,7 +117,7 @@ CLAIMED = {
          "k<=3 (5) waiters with ghost channels; 3 jobs with arbitrary membership, metadata files and Limit) is symbolic subject to the "
          "representation invariant, one operation with arbitrary arguments runs, and the solver shows invariant, FIFO prefix grants, exact "
          "accounting, no lost wake-up and mutex discipline afterwards. Each operation is atomic under its mutex, so histories of any "
-         "length are covered for states within the bound. Bounded values (2^40) and queue length. LocalJobManager.Enqueue (job process stubbed with an arbitrary outcome): the clamped request is reserved while the job runs, within every limit, and released whatever the outcome.",
+         "length are covered for states within the bound. Bounded values (2^40) and queue length. LocalJobManager.Enqueue (job process stubbed with an arbitrary outcome): the clamped request is reserved while the job runs, within every limit, and released whatever the outcome. H_C12_jobsOrder: request order of job slots (known finding).",
          "Trusted: go/ssa, symgo, ghost models of sync.Mutex/Cond/channels, cvc5 --solve-bv-as-int and z3. Caller contracts assumed "
          "(amounts>=0, Release<=reserved, UpdateSize<=maxSize). Outside: clamping in GetSystemReqs beyond the six enumerated floating-point requests, OS liveness, "
          "remote manager goroutines.",
@@ -125,7 +125,7 @@ CLAIMED = {
  "C19": ("Partial (reference rewriting of rename edits): the real updateRef/updateRefInExp on references with symbolic ids, output paths and "
          "old/new names, and RenameCallable with its edits applied to a hand-built pipeline AST (argument, nested-output, disabled, return and "
          "retain references; alias collision; reverse rename). The solver shows every reference that named the renamed call still names it, "
-         "nothing else changes, and X->Y->X restores the names. Refactor with TopCalls (removal of unused outputs to a fixed point) on a three-level pipeline: the edit applied to a fresh parse, formatted and recompiled still compiles and the top-level call resolves to the same stage inputs and outputs. H_C19_unusedShapes: --top-calls with and without --remove-unused-calls around pipelines nobody reads from; H_C19_renameRoundTrip: rename there and back on real text (alias equal to the new name is a known finding).",
+         "nothing else changes, and X->Y->X restores the names. Refactor with TopCalls (removal of unused outputs to a fixed point) on a three-level pipeline: the edit applied to a fresh parse, formatted and recompiled still compiles and the top-level call resolves to the same stage inputs and outputs. H_C19_unusedShapes: --top-calls with and without --remove-unused-calls around pipelines nobody reads from; H_C19_renameRoundTrip: rename there and back on real text (alias equal to the new name is a known finding). H_C19_wildcards: 8 renames across wildcard bindings at two levels.",
          "Trusted: go/ssa, symgo, z3, the fixed AST shape and fixture text. Outside: removal of unused calls, other programs, "
          "input/output renames across files.",
          "DESIGN.md §4 (C19)"),
@@ -135,7 +135,7 @@ CLAIMED = {
          "two files, a struct member, a typed-map value) is arbitrarily null, empty, a file inside the pipestance, never written, a file outside, a relative or an "
          "absolute symlink. Asserted: every existing output is reachable under outs/ with its identity, the rewritten _outs designates it, the reported location "
          "still leads to it, inside files are moved not linked, missing ones become null, non-file values are untouched, no file is lost or duplicated, nothing "
-         "outside the pipestance changes. H_C13_array2d: two-dimensional arrays of files as top-level outputs.",
+         "outside the pipestance changes. H_C13_array2d: two-dimensional arrays of files as top-level outputs. H_C05_postProcessResumed (a file already moved by an interrupted run).",
          "Trusted: go/ssa, symgo, z3, the file-system model and the reference JSON decoder (both in the harness, both part of the claim). Outside: the real "
          "file system (permissions, I/O errors, hard links, links in directory components), compile-time output-name rules, multi-fork top-level calls, directories "
          "as outputs.",
@@ -146,7 +146,7 @@ CLAIMED = {
          "position of the wrong shape, or a struct lacking a member) and runs the real IsValidJson / FilterJson / CanFilter / sameSlice paths: conforming values "
          "and null validate, near-misses do not (user file types: accepted with an alarm, the documented leniency), filtering a valid value reports no error, gives a "
          "valid value, is idempotent, returns its input unchanged when nothing has to be dropped and otherwise drops exactly the undeclared struct fields; a wider "
-         "struct filters to the narrower struct it is assignable to. H_C17_assignability: IsAssignableFrom over 13 types and their array / map wrappers is reflexive and componentwise for structs.",
+         "struct filters to the narrower struct it is assignable to. H_C17_assignability: IsAssignableFrom over 13 types and their array / map wrappers is reflexive and componentwise for structs. H_C17_intContainers: 9 integral-float spellings x 5 container shapes (integer written at every depth, input untouched, idempotent); H_C17_paddedNull: 13 types x 4 paddings.",
          "Trusted: go/ssa, symgo, z3, the reference JSON decoder in the harness (which byte strings are numbers / strings / booleans is the model's verdict). "
          "Outside: encoding/json itself, integral floats re-written as integers, odd whitespace and escapes, untyped maps, maps of arrays, the full assignability relation.",
          "DESIGN.md §4 (C17)"),
